@@ -323,10 +323,10 @@ Qed.
 
 Lemma content_length base all it : length (content base all it) = size_of all it.
 Proof.
-  destruct it as [nm t els|nm len|nm tg d|nm l1 l2 d|nm fn|rt body|k]; simpl; try reflexivity.
+  destruct it as [nm t els|nm len|nm tg d|nm l1 l2 d|nm fn|rt body| |k]; simpl; try reflexivity.
   - unfold known. rewrite map_length. apply flat_map_le_length.
   - apply repeat_length.
-  - destruct (nth_error all fn) as [[| | | | |rt body|]|]; try reflexivity.
+  - destruct (nth_error all fn) as [[| | | | |rt body| |]|]; try reflexivity.
     destruct rt; unfold known; simpl; reflexivity.
 Qed.
 
@@ -404,3 +404,20 @@ Lemma bss_contents_proof base all i p nm len :
   nth_error all i = Some (IBss nm len) -> place_of all i = Some p ->
   slice (image base all (p_head p)) (p_off p) len = repeat (Some 0%Z) len.
 Proof. intros Hi Hp. apply (section_contents_proof base all i p _ Hi Hp). Qed.
+
+(* a module that passes the load-time checks only has expr items over genuine expression
+   functions, and its lrefs have a function to refer to *)
+Lemma load_check_ok_proof all :
+  load_check all = None ->
+  (forall nm fn, In (IExpr nm fn) all ->
+     exists rt body, nth_error all fn = Some (IFunc rt body) /\ expr_ok body = true) /\
+  ((exists it, In it all /\ is_lref it = true) -> exists it, In it all /\ is_gfunc it = true).
+Proof.
+  unfold load_check. destruct (forallb (expr_item_ok all) all) eqn:Hf; simpl; [|discriminate].
+  destruct (existsb is_lref all && negb (existsb is_gfunc all)) eqn:Hl; [discriminate|]. intros _. split.
+  - intros nm fn Hin. rewrite forallb_forall in Hf. specialize (Hf _ Hin). simpl in Hf.
+    destruct (nth_error all fn) as [[| | | | |rt body| |]|]; try discriminate. exists rt, body. split; auto.
+  - intros (it & Hin & Hit). apply andb_false_iff in Hl. destruct Hl as [Hl|Hl].
+    + assert (existsb is_lref all = true) by (apply existsb_exists; exists it; auto). congruence.
+    + apply negb_false_iff in Hl. apply existsb_exists in Hl. exact Hl.
+Qed.
